@@ -11,8 +11,9 @@ answer: `ok <i>@<ts>[rx,rx,…];… p=<n>` — the records sent, in order (frame
 frame table), `-` when there is none, and the number of receptions of decodable frames still in
 the cache; `panic` when the loop would panic.  The abstract specification (Spec/Dedup.lean) is run
 on the same history and must give the same records (`spec-differs` otherwise).
-`dedupf <w> <frames> <arrival>…`: the same for decode1090's copy, which flushes the cache at end of
-file; answer `ok <records>`.
+`dedupf <w> <frames> <arrival>…`: the same for decode1090's copy (`runFlush`: its own copy of the loop body
+with the operators extracted from decode1090/src/main.rs, then the flush at end of file if that source has
+one); answer `ok <records>`.
 -/
 namespace Rs1090.Driver.C10
 open Rs1090 Rs1090.Dedup Rs1090.Driver
@@ -26,13 +27,15 @@ def parseFrame (s : String) : Option (Frame × Bool) :=
 def parseRx (s : String) : Option (List Nat) :=
   if s.isEmpty then some [] else (s.splitOn ".").mapM (·.toNat?)
 
-def parseArrival (frames : List (Frame × Bool)) (s : String) : Option Arrival :=
+/-- `factor`: the `1e3` of `(ts * 1e3) as u128` as found in the copy of the loop the op is about
+    (`Gen/Dedup.lean`); the op line carries the milliseconds the harness computed with its own `1e3` -/
+def parseArrival (factor : Nat) (frames : List (Frame × Bool)) (s : String) : Option Arrival :=
   let go (t i rx : String) : Option Arrival := do
     let t ← t.toNat?
     let i ← i.toNat?
     let f ← frames[i]?
     let rx ← parseRx rx
-    pure ⟨t, f.1, rx⟩
+    pure ⟨timestampMs factor t, f.1, rx⟩
   match s.splitOn ":" with
   | [t, i, rx] => go t i rx
   | [t, i, rx, _bits] => go t i rx      -- the f64 bit pattern, for the harness only
@@ -56,7 +59,7 @@ def handle : List String → Option String
   | "dedup" :: w :: fs :: arrivals => do
     let w ← w.toNat?
     let frames ← (fs.splitOn ",").mapM parseFrame
-    let hist ← arrivals.mapM (parseArrival frames)
+    let hist ← arrivals.mapM (parseArrival Gen.Dedup.Jet.msFactor frames)
     let dec : Frame → Bool := fun f => (frames.lookup f).getD false
     if !flagsAgree frames then some "decodability-differs" else
     match runChecked w dec init hist with
@@ -72,7 +75,7 @@ def handle : List String → Option String
     -- decode1090: the same history with the flush at end of file
     let w ← w.toNat?
     let frames ← (fs.splitOn ",").mapM parseFrame
-    let hist ← arrivals.mapM (parseArrival frames)
+    let hist ← arrivals.mapM (parseArrival Gen.Dedup.Decode1090.msFactor frames)
     let dec : Frame → Bool := fun f => (frames.lookup f).getD false
     let out := runFlush w dec hist
     if Spec.Dedup.runFlush w dec hist = out then
